@@ -538,17 +538,31 @@ Inductive afault := NoFault | FaultEarly | FaultWriteback (j : nat).
                                             calloc -- on failure goto out --; vpmr_frequencies = frequencies; }
      copy the frequencies; vpmr_gamma_vector = the solved vector.
    nc = number of callocs executed so far; result = (parameter values, completed) *)
-Fixpoint writeback (F : nat) (tag : list meas) (fail_at : option nat) (nc : nat) (ps : list nat) (pv : pvals)
+Fixpoint writeback_before_DI92 (F : nat) (tag : list meas) (fail_at : option nat) (nc : nat) (ps : list nat) (pv : pvals)
   : pvals * bool :=
   match ps with
   | [] => (pv, true)
   | k :: rest =>
     let done := {| pv_freqs := F; pv_gamma := Some tag |} in
-    if pv_freqs (pv_get pv k) =? F then writeback F tag fail_at nc rest (pv_set pv k done)
+    if pv_freqs (pv_get pv k) =? F then writeback_before_DI92 F tag fail_at nc rest (pv_set pv k done)
     else if (match fail_at with Some j => j =? nc | None => false end)
          then (pv_set pv k pv_init, false)
-         else writeback F tag fail_at (S nc) rest (pv_set pv k done)
+         else writeback_before_DI92 F tag fail_at (S nc) rest (pv_set pv k done)
   end.
+
+
+(* since DI92 the write-back is all or nothing: a first loop allocates the new frequency vector of every parameter whose
+   number of frequencies changes (an injected failure at the j-th of these callocs frees what was allocated and leaves through
+   "out:" with NOTHING written), a second loop that cannot fail commits.  wb_allocs = the callocs of the first loop. *)
+Definition wb_allocs (F : nat) (ps : list nat) (pv : pvals) : nat :=
+  if F =? 0 then 0 else length (filter (fun k => negb (pv_freqs (pv_get pv k) =? F)) ps).
+Definition writeback (F : nat) (tag : list meas) (fail_at : option nat) (nc : nat) (ps : list nat) (pv : pvals)
+  : pvals * bool :=
+  match fail_at with
+  | Some j => if j <? wb_allocs F ps pv then (pv, false) else writeback_before_DI92 F tag None nc ps pv
+  | None => writeback_before_DI92 F tag None nc ps pv
+  end.
+Arguments writeback : simpl never.
 
 (* _vnacal_new_solve_internal, in the order of its effects:
    1. no frequency vector: EINVAL (nothing was allocated);
@@ -569,6 +583,23 @@ Definition solve (o : oracle) (af : afault) (st : state) : state * outcome :=
          then
            let '(pv, completed) :=
                writeback (st_freqs st) (st_meas st) (match af with FaultWriteback j => Some j | _ => None end)
+                         0 (unknown_list st) (st_pv st) in
+           if completed then (set_cal (set_pv st pv) (Some (st_meas st)), Ok)
+           else (set_pv st pv, Err ENOMEM)
+         else (st, Err EDOM)
+       end.
+
+(* model_variant_before_DI92: the write-back as it was (parameters written one by one, a failed calloc leaves the earlier ones
+   with the new solution) *)
+Definition solve_before_DI92 (o : oracle) (af : afault) (st : state) : state * outcome :=
+  if negb (st_fvalid st) then (st, Err EINVAL)
+  else match af with
+       | FaultEarly => (st, Err ENOMEM)
+       | _ =>
+         if forallb (solve_frequency o st) (seq 0 (st_freqs st))
+         then
+           let '(pv, completed) :=
+               writeback_before_DI92 (st_freqs st) (st_meas st) (match af with FaultWriteback j => Some j | _ => None end)
                          0 (unknown_list st) (st_pv st) in
            if completed then (set_cal (set_pv st pv) (Some (st_meas st)), Ok)
            else (set_pv st pv, Err ENOMEM)
